@@ -113,3 +113,23 @@ claim("C07",
       "by exhaustive execution of the real _get_wyckoff_sets on every equivalence labeling of up to 5 atoms (bounded stand-in, labelled bounded).",
       "spglib's orbits and letters are assumed (A-SPG). Part (c) is bounded (n <= 5) and not counted as proved.",
       "exhaustive table obligations + symbolic index-map proof; bounded exhaustive execution for set formation", "DESIGN.md §3 C07")
+
+ENGINES.append({"name": "cxxvc", "path": "engine/cxxvc.py", "serves_properties": ["C10", "C16"],
+  "kind_free_text": "clang 14 typed JSON AST of the real matid/ext/*.cpp (through a stub pybind11 header) -> mechanical translation of each function body into Python statements -> executed by pyvc with loop invariants / per-iteration obligations; every run re-reads the .cpp files"})
+
+claim("C10",
+      "The C++ of matid/ext is translated mechanically from clang's typed AST on every run and executed symbolically: extend_system (copy counts = ceil(extension / perpendicular height) incl. the degenerate-cell branches; "
+      "multiples 0..m,-m..-1 as loop invariants; every (i,j,k,l) of the fill nest writes image index i_copy*n+l with original index, multipliers and position = original + multipliers.cell; mixed-radix counter invariants), "
+      "CellList::init (bounding-box invariant, bin size >= cutoff, every atom lands in an existing bin: safety obligations), get_neighbours_for_position and CellList::get_displacement_tensor (a generic stored image of a scanned "
+      "bin is reported iff within the cutoff; the map keeps for every j<i a genuine image, entries only improve; antisymmetric fill; zero diagonal), driver (extension = cutoff or longest periodic vector), explicit case split for an infinite cutoff. "
+      "Pure lemmas (z3 nonlinear): perpendicular-height sufficiency, adjacent bins suffice, bin index in range. Python wrapper executed on its whole flag domain.",
+      "Floats as reals; per-iteration obligations + frame are composed into whole-loop statements by the standard array-initialisation / monotone-map induction schema (stated in DESIGN.md, not machine-checked); "
+      "the final 'exact within range' statement is the composition of the listed lemmas; pybind11 stub; native replay cannot follow .cpp edits (extension cannot be rebuilt here).",
+      "clang AST -> mechanical translation -> symbolic execution with invariants + z3 lemmas", "DESIGN.md §3 C10")
+
+claim("C16",
+      "Extended system and neighbour query: the same C++ obligations as C10 (every periodic image within the extension distance exactly once, originals first, no offset along non-periodic axes; a query returns a stored image "
+      "iff it lies within the cutoff, with exact distance/displacement/offset; scanned bins suffice by lemma). Position matching: get_matches and get_matches_simple executed symbolically for a symbolic number of queries against "
+      "that query contract: nearest image within tolerance -> match if species agree / substitution otherwise, vacancy when nothing is within tolerance, with the image's cell offset (floor of the scaled position for vacancies), one entry per query.",
+      "As C10; precondition tolerance <= cutoff and extension >= tolerance is established at the construction site in the periodic search (not re-proved); A-NP argmin, A-ASE wrap_positions.",
+      "clang AST -> translation -> symbolic execution; symbolic execution of the Python matching code with per-query obligations", "DESIGN.md §3 C16")
